@@ -43,7 +43,7 @@ def pad(t):
     t.setdefault("events", [{"ev": "none", "arg": "", "input": "", "out": "", "changed": 0, "which": "", "pristine": 0, "digest": 0}])
     t.setdefault("fresh", {"I1": {k: 0 for k in OPTSETS}, "I2": {k: 0 for k in OPTSETS}})
     t.setdefault("digests", [0])
-    t.setdefault("rt", {"first_run": 0, "recreate": 0, "second_run": 0, "geqdsk_bytes_equal": 0, "yaml_safe_loads": 0, "arrays_identical": 0, "max_abs_diff_q": 0})
+    t.setdefault("rt", {"first_run": 0, "recreate": 0, "second_run": 0, "geqdsk_bytes_equal": 0, "yaml_safe_loads": 0, "arrays_identical": 0, "max_abs_diff_q": 0, "tolq": 10})
     return t
 
 
@@ -97,19 +97,21 @@ def run(tier, seed):
             outs.append(int(out.strip().splitlines()[-1]) if rc == 0 and out.strip() else 0)
         return "rep:" + name, outs
 
-    def roundtrip():
-        rd = os.path.join(d, "rt")
-        run_group([PY, "-B", os.path.join(VERIF, "harness/drivers/roundtrip_run.py"), rd], timeout=900, env=repo_env())
+    def roundtrip(mode="cli"):
+        tag = "rt" if mode == "cli" else "rt_" + mode
+        rd = os.path.join(d, tag)
+        run_group([PY, "-B", os.path.join(VERIF, "harness/drivers/roundtrip_run.py"), rd, mode], timeout=1500, env=repo_env())
         st = os.path.join(rd, "status.json")
         if not os.path.exists(st):
-            return "rt", None
+            return tag, None
         with open(st) as fh:
-            return "rt", json.load(fh)
+            return tag, json.load(fh)
 
     jobs = [lambda n=n, h=h: one(n, h) for n, h in job_defs.items()]
     reps = ["lsn_orth", "lsn_nonorth"] if tier == "quick" else ["lsn_orth", "lsn_nonorth", "cdn_orth", "udn_nonorth"]
     jobs += [lambda n=n: repeat(n) for n in reps]
     jobs.append(roundtrip)
+    jobs.append(lambda: roundtrip("regrid"))
     results = dict(parallel_jobs(jobs, nproc=max(2, NCPU - 2)))
     fresh1 = {}
     for n in OPTSETS:
@@ -136,10 +138,13 @@ def run(tier, seed):
     for n in reps:
         traces.append(pad({"id": len(traces) + 1, "kind": "repeat", "name": n, "digests": results["rep:" + n]}))
     rt = results["rt"]
-    if rt is None:
-        v.fail_machinery("round-trip driver gave no status")
-    else:
-        traces.append(pad({"id": len(traces) + 1, "kind": "roundtrip", "name": "roundtrip", "rt": {k: rt[k] for k in ("first_run", "recreate", "second_run", "geqdsk_bytes_equal", "yaml_safe_loads", "arrays_identical", "max_abs_diff_q")}}))
+    for tag, tolq in (("rt", 10), ("rt_regrid", 1000000)):      # 1e-11 / 1e-6 of each variable's largest value (quantum 1e-12)
+        r1 = results[tag]
+        if r1 is None:
+            v.fail_machinery("round-trip driver (%s) gave no status" % tag)
+        else:
+            traces.append(pad({"id": len(traces) + 1, "kind": "roundtrip", "name": "roundtrip" if tag == "rt" else "roundtrip_after_regrid",
+                               "rt": dict({k: r1[k] for k in ("first_run", "recreate", "second_run", "geqdsk_bytes_equal", "yaml_safe_loads", "arrays_identical", "max_abs_diff_q")}, tolq=tolq)}))
     send = [{k: t[k] for k in ("id", "kind", "events", "fresh", "digests", "rt")} for t in traces]
     failed, res = validate(send, d)
     v.add_tlc(res)
@@ -160,7 +165,7 @@ def run(tier, seed):
                 key = "C14 engine=%s clause=%s case=%s" % (t["kind"], cl, t["name"])
                 what = "clause %s fails for %s: %s" % (cl, t["name"], t.get("digests") if t["kind"] == "repeat" else t.get("rt"))
             v.violation(key, what, {"trace": {k: t[k] for k in t if k != "fresh"}})
-    v.note("c14", {"histories": len(hs), "repeats": reps, "roundtrip": rt, "fresh_digests": fresh, "clauses_failed": sorted({c for s in failed.values() for c in s})})
+    v.note("c14", {"histories": len(hs), "repeats": reps, "roundtrip": rt, "roundtrip_after_regrid": results.get("rt_regrid"), "fresh_digests": fresh, "clauses_failed": sorted({c for s in failed.values() for c in s})})
     v.sample({"engine": "C->S build history", "history": traces[5]["history"], "events": [(e["ev"], e["arg"], e["changed"], e["digest"]) for e in traces[5]["events"]]})
     clean = [t for t in traces if t["kind"] == "history" and t["id"] not in failed]
     if clean:
